@@ -59,7 +59,7 @@ def plan(tier, seed):
 
 def mandatory_bins(tier):
     b = ["offset_%d" % o for o in OFFSETS] + ["offset_random", "tag_order_not_sorted", "encrypted_component", "zero_components", "eight_tags",
-         "text_stream", "text_path", "bec2", "appnote_scripts", "block_cust_opened", "block_update_opened", "block_ecc_opened", "customer_key_in_slot", "histories_under_layout_hooks", "second_export_after_in_place_mutation", "more_than_255_components", "directory_larger_than_64k", "bec2_without_auth_blocks", "encrypted_payload_over_8k", "same_component_object_listed_twice", "exports_by_concurrent_threads", "one_object_exported_by_concurrent_threads", "description_is_a_dict_subclass", "unmarked_component_carrying_the_enc_02_tag", "encrypted_component_declared_shorter_than_blob", "text_of_a_binary_longer_than_16k"]
+         "text_stream", "text_path", "bec2", "appnote_scripts", "block_cust_opened", "block_update_opened", "block_ecc_opened", "customer_key_in_slot", "histories_under_layout_hooks", "second_export_after_in_place_mutation", "more_than_255_components", "directory_larger_than_64k", "bec2_without_auth_blocks", "encrypted_payload_over_8k", "same_component_object_listed_twice", "exports_by_concurrent_threads", "one_object_exported_by_concurrent_threads", "description_is_a_dict_subclass", "unmarked_component_carrying_the_enc_02_tag", "encrypted_component_declared_shorter_than_blob", "text_of_a_binary_longer_than_16k", "second_export_after_tag_list_changed_in_place"]
     b += ["blocks_" + "+".join(l) for l in GB.all_block_lists()]
     return b
 
@@ -166,6 +166,20 @@ def run_bf3(ns, ctx, mon, case, key, offset, scratch, idx, dup=False):
                 if rng.random() < 0.7:
                     c.blob = bytes((x ^ 0x3C) for x in c.blob) if rng.random() < 0.5 else c.blob + rng.randbytes(rng.choice((1, 16)))
                     c.actual_len = len(c.blob)
+                if rng.random() < 0.5 and len(c.description) < 6 and sum(2 + len(v) for v in c.description.values()) <= 190:
+                    # ... and the tag list (same number of components, another directory size): a tag added, dropped or resized
+                    r_ = rng.random()
+                    if r_ < 0.4 or not c.description:
+                        c.description[0x70 + len(c.description)] = rng.randbytes(rng.choice((0, 1, 5)))
+                    elif r_ < 0.7:
+                        t_ = rng.choice([t for t in c.description if t != 0xC2] or [None])
+                        if t_ is not None:
+                            del c.description[t_]
+                    else:
+                        t_ = rng.choice([t for t in c.description if t != 0xC2] or [None])
+                        if t_ is not None:
+                            c.description[t_] = bytes(c.description[t_]) + b"\x01\x02"
+                    ctx.bin("second_export_after_tag_list_changed_in_place")
             ctx.bin("second_export_after_in_place_mutation")
             obj.to_binary(offset, key)
             buf = io.StringIO()
